@@ -280,7 +280,11 @@ func mutate(f fuzzIn, stream []byte) []byte {
 		// random payloads under plausible record headers
 		var out []byte
 		for i := 0; i < 1+f.Arg%6; i++ {
-			body := rb(int(rb(1)[0]) % 80)
+			n := int(rb(1)[0]) % 80
+			if rb(1)[0]&1 == 0 {
+				n %= 4 // control records are short: lengths 0..3 matter
+			}
+			body := rb(n)
 			out = append(out, []byte{20, 21, 22, 23, 22, 22}[int(rb(1)[0])%6], 3, byte(1+int(rb(1)[0])%3), byte(len(body)>>8), byte(len(body)))
 			out = append(out, body...)
 		}
